@@ -110,7 +110,7 @@ def psoIterate (cfg : LocalCfg) (s : PopSt) : Except Err (Pos × PopSt) := do
   let (ok, tape2) ← askFeas p tape1
   if ok then pure (p, { s with members := s.members.set idx m1, cur := idx, tape := tape2, tr := s.tr.trackNewPos p })
   else do
-    let (q, tape3) ← moveClimb cfg.geo (some p) (some 1) tape2
+    let (q, tape3) ← moveClimb cfg.geo (some p) (some 1) s.tape.length tape2
     let m2 : Local := { m1 with tr := { m1.tr with posNew := some q } }
     pure (q, { s with members := s.members.set idx m2, cur := idx, tape := tape3, tr := s.tr.trackNewPos q })
 
